@@ -23,6 +23,8 @@ HIST = {
  "C08-c": "missed at first -> '#big' cases with one giant run inside irregular keys (detected on 5 of 6 seeds in the quick tier: the trigger is a narrow bit-width window)",
  "C10-c": "missed at first (vector length multiple of 64 has probability 1/64 per dataset) -> '#sweep' cases: ~70 prefixes of one array, a few keys apart, pass through all residues",
  "C19-c": "caught by one assignment-chain / copy case in the quick tier (crash); the trigger is a count that is an exact multiple of 4096",
+ "C06-d": "NOT reported, by design: hi == numeric max is outside the quantifier as I read it (see DESIGN section 7); every in-domain call behaves as before the change",
+ "C02-d": "same family as C03-c / C01-d (under-delivered OpenMP team)",
  "C04-c": "missed at first (no segment kept > 2^16 hull vertices) -> slow_convex_long_segment family",
  "C12-c": "missed at first (output files were always fresh) -> half of the cases pre-populate the output names with longer files; file length is compared with file_size_in_bytes()",
  "C16-c": "caught by the per-thread result digests (ThreadSanitizer reports nothing: all shared accesses are atomic)",
